@@ -1,6 +1,7 @@
 /- Helper lemmas for C07 (discovery is exact). Statements mirror Props/C07.lean. -/
 import TddaVerif.Model.Constraints
 import TddaVerif.Props.C02Spec
+import TddaVerif.Lemmas.DiscoverAux
 
 namespace TddaVerif.Props.C07
 open TddaVerif.Constraints TddaVerif.Props.C02
@@ -13,37 +14,233 @@ def Stronger' : Sign → Sign → Bool
 end TddaVerif.Props.C07
 
 namespace TddaVerif.Props.C07.Lemmas
-open TddaVerif.Constraints TddaVerif.Props.C02 TddaVerif.Props.C07
+open TddaVerif.Constraints TddaVerif.Props.C02 TddaVerif.Props.C07 TddaVerif.Constraints.DiscAux
 
-theorem discover_total (incRex : Bool) (rexOf : List Val → List Nat) (c : Column) (hwf : c.WF = true)
-    (h : 0 < c.cells.length ∨ incRex = false ∨ c.ftype ≠ .string) :
+/-! ### plumbing -/
+
+theorem ks_eq {incRex : Bool} {rexOf : List Val → List Nat} {c : Column} {n : Nat} {ks : List Constraint}
+    (ho : c.ftype ≠ .other) (hn : 0 < n) (h : discoverField incRex rexOf c n = .ok (some ks)) :
+    ks = allParts incRex rexOf c := by
+  rw [discover_nf' incRex rexOf c n ho (by omega)] at h
+  injection h with h; injection h with h; exact h.symm
+
+section mem
+variable (incRex : Bool) (rexOf : List Val → List Nat) (c : Column)
+
+theorem mem_type (ts) : Constraint.type ts ∈ allParts incRex rexOf c ↔ Constraint.type ts ∈ typePart c := by
+  rw [mem_allParts]; simp [kind]
+theorem mem_min (v p) : Constraint.min v p ∈ allParts incRex rexOf c ↔ Constraint.min v p ∈ minPart c := by
+  rw [mem_allParts]; simp [kind]
+theorem mem_max (v p) : Constraint.max v p ∈ allParts incRex rexOf c ↔ Constraint.max v p ∈ maxPart c := by
+  rw [mem_allParts]; simp [kind]
+theorem mem_minLength (v) : Constraint.minLength v ∈ allParts incRex rexOf c ↔ Constraint.minLength v ∈ lengthPart c := by
+  rw [mem_allParts]; simp [kind]
+theorem mem_maxLength (v) : Constraint.maxLength v ∈ allParts incRex rexOf c ↔ Constraint.maxLength v ∈ lengthPart c := by
+  rw [mem_allParts]; simp [kind]
+theorem mem_sign (v) : Constraint.sign v ∈ allParts incRex rexOf c ↔ Constraint.sign v ∈ signPart c := by
+  rw [mem_allParts]; simp [kind]
+theorem mem_maxNulls (v) : Constraint.maxNulls v ∈ allParts incRex rexOf c ↔ Constraint.maxNulls v ∈ maxNullsPart c := by
+  rw [mem_allParts]; simp [kind]
+theorem mem_noDup (v) : Constraint.noDuplicates v ∈ allParts incRex rexOf c ↔ Constraint.noDuplicates v ∈ noDupPart c := by
+  rw [mem_allParts]; simp [kind]
+theorem mem_allowed (v) : Constraint.allowedValues v ∈ allParts incRex rexOf c ↔ Constraint.allowedValues v ∈ allowedPart c := by
+  rw [mem_allParts]; simp [kind]
+
+end mem
+
+/-! ### the parts -/
+
+theorem mem_minPart (c : Column) (k : Constraint) :
+    k ∈ minPart c ↔ c.nonNull ≠ [] ∧ c.ftype ≠ .string ∧ ∃ m, minOf c.nonNull = some m ∧ k = .min (some m) .fuzzy := by
+  unfold minPart calcMin
+  split
+  · rename_i h
+    rw [nonStr_iff] at h
+    split
+    · rename_i v hv; simp [h, hv]
+    · rename_i hv; simp [hv]
+  · rename_i h
+    rw [nonStr_iff] at h
+    simp; intro h1 h2; exact absurd ⟨h1, h2⟩ h
+
+theorem mem_maxPart (c : Column) (k : Constraint) :
+    k ∈ maxPart c ↔ c.nonNull ≠ [] ∧ c.ftype ≠ .string ∧ ∃ m, maxOf c.nonNull = some m ∧ k = .max (some m) .fuzzy := by
+  unfold maxPart calcMax
+  split
+  · rename_i h
+    rw [nonStr_iff] at h
+    split
+    · rename_i v hv; simp [h, hv]
+    · rename_i hv; simp [hv]
+  · rename_i h
+    rw [nonStr_iff] at h
+    simp; intro h1 h2; exact absurd ⟨h1, h2⟩ h
+
+/-! ### theorems -/
+
+theorem discover_total (incRex : Bool) (rexOf : List Val → List Nat) (c : Column) (hwf : c.WF = true) :
     ∃ ks, discoverField incRex rexOf c c.cells.length = .ok (some ks) := by
-  sorry
+  have ho := wf_other hwf
+  by_cases hn : c.cells.length = 0
+  · unfold discoverField
+    have h1 : (c.ftype == .other) = false := by simpa using ho
+    rw [hn]
+    simp only [h1, Bool.false_eq_true, if_false, BEq.rfl, if_true]
+    exact ⟨_, rfl⟩
+  · exact ⟨_, discover_nf' incRex rexOf c _ ho hn⟩
 
 theorem type_is_column_type (incRex : Bool) (rexOf : List Val → List Nat) (c : Column) (n : Nat)
     (ks : List Constraint) (h : discoverField incRex rexOf c n = .ok (some ks)) :
     ks.head? = some (.type (some [c.ftype])) ∧
     ∀ ts, Constraint.type ts ∈ ks → ts = some [c.ftype] := by
-  sorry
+  by_cases ho : c.ftype = .other
+  · unfold discoverField at h
+    simp [ho] at h
+  · by_cases hn : n = 0
+    · unfold discoverField at h
+      have h1 : (c.ftype == .other) = false := by simpa using ho
+      subst hn
+      simp only [h1, Bool.false_eq_true, if_false, BEq.rfl, if_true] at h
+      injection h with h; injection h with h; subst h
+      constructor
+      · simp
+      · intro ts hts
+        split at hts <;> simpa using hts
+    · have := ks_eq ho (by omega) h
+      subst this
+      constructor
+      · simp [allParts, typePart]
+      · intro ts hts
+        rw [mem_type] at hts
+        simpa [typePart] using hts
 
 theorem nothing_for_absent (incRex : Bool) (rexOf : List Val → List Nat) (c : Column)
     (ks : List Constraint) (h : discoverField incRex rexOf c 0 = .ok (some ks)) :
-    ks = [.type (some [c.ftype])] := by
-  sorry
+    ks = .type (some [c.ftype]) ::
+          (if c.ftype == .string && incRex then [Constraint.rex (some (rexOf []))] else []) := by
+  unfold discoverField at h
+  by_cases ho : c.ftype = .other
+  · simp [ho] at h
+  · have h1 : (c.ftype == .other) = false := by simpa using ho
+    simp only [h1, Bool.false_eq_true, if_false, BEq.rfl, if_true] at h
+    injection h with h; injection h with h; exact h.symm
 
 theorem min_exact (incRex : Bool) (rexOf : List Val → List Nat) (c : Column) (hwf : c.WF = true)
     (ks : List Constraint) (hn : 0 < c.cells.length)
     (h : discoverField incRex rexOf c c.cells.length = .ok (some ks)) :
     (∀ v p, Constraint.min v p ∈ ks → ∃ m, v = some m ∧ m ∈ c.nonNull ∧ ∀ x ∈ c.nonNull, m.le x = true) ∧
     ((∃ v p, Constraint.min v p ∈ ks) ↔ (c.ftype ≠ .string ∧ c.nonNull ≠ [])) := by
-  sorry
+  have := ks_eq (wf_other hwf) hn h
+  subst this
+  simp only [mem_min, mem_minPart]
+  constructor
+  · rintro v p ⟨_, _, m, hm, hk⟩
+    injection hk with hv hp
+    exact ⟨m, hv, minOf_spec _ m (wf_allT hwf) hm⟩
+  · constructor
+    · rintro ⟨v, p, h1, h2, _⟩; exact ⟨h2, h1⟩
+    · rintro ⟨h2, h1⟩
+      cases hm : minOf c.nonNull with
+      | none => exact absurd ((minOf_eq_none _).mp hm) h1
+      | some m => exact ⟨some m, .fuzzy, h1, h2, m, rfl, rfl⟩
 
 theorem max_exact (incRex : Bool) (rexOf : List Val → List Nat) (c : Column) (hwf : c.WF = true)
     (ks : List Constraint) (hn : 0 < c.cells.length)
     (h : discoverField incRex rexOf c c.cells.length = .ok (some ks)) :
     (∀ v p, Constraint.max v p ∈ ks → ∃ m, v = some m ∧ m ∈ c.nonNull ∧ ∀ x ∈ c.nonNull, x.le m = true) ∧
     ((∃ v p, Constraint.max v p ∈ ks) ↔ (c.ftype ≠ .string ∧ c.nonNull ≠ [])) := by
-  sorry
+  have := ks_eq (wf_other hwf) hn h
+  subst this
+  simp only [mem_max, mem_maxPart]
+  constructor
+  · rintro v p ⟨_, _, m, hm, hk⟩
+    injection hk with hv hp
+    exact ⟨m, hv, maxOf_spec _ m (wf_allT hwf) hm⟩
+  · constructor
+    · rintro ⟨v, p, h1, h2, _⟩; exact ⟨h2, h1⟩
+    · rintro ⟨h2, h1⟩
+      cases hm : maxOf c.nonNull with
+      | none => exact absurd ((maxOf_eq_none _).mp hm) h1
+      | some m => exact ⟨some m, .fuzzy, h1, h2, m, rfl, rfl⟩
+
+theorem uniques_exact (c : Column) (hwf : c.WF = true) :
+    (∀ v, v ∈ calcUniques c ↔ v ∈ c.nonNull) ∧
+    (calcUniques c).Pairwise (fun a b => a.lt b = true) := by
+  have ht := wf_allT hwf
+  unfold calcUniques
+  constructor
+  · intro v; rw [mem_sortVals, mem_dedup _ ht]
+  · exact sortVals_sorted _ (fun v hv => ht v (dedup_sub _ v hv)) (dedup_pairwise _)
+
+theorem calcUniques_length (c : Column) : (calcUniques c).length = calcNunique c := by
+  unfold calcUniques calcNunique; exact length_sortVals _
+
+theorem calcNunique_pos (c : Column) (hne : c.nonNull ≠ []) : 0 < calcNunique c := by
+  unfold calcNunique
+  have := dedup_eq_nil c.nonNull
+  cases hd : dedup c.nonNull with
+  | nil => exact absurd (this.mp hd) hne
+  | cons _ _ => simp
+
+theorem uniqs_string (c : Column) (hs : c.ftype = .string) (hne : c.nonNull ≠ []) :
+    uniqs c = some (calcUniques c) := by
+  have hpos := calcNunique_pos c hne
+  have hnn := (nonNullCount_pos c).mpr hne
+  unfold uniqs uniqs0 nUniq
+  by_cases h20 : (calcNunique c : Int) ≤ maxCategories
+  · simp [hs, h20]
+  · simp [hs, h20, hnn, hpos]
+
+theorem mem_lensOf (l : List Val) (n : Nat) : n ∈ lensOf l ↔ ∃ x, Val.s x ∈ l ∧ x.length = n := by
+  unfold lensOf
+  rw [List.mem_filterMap]
+  constructor
+  · rintro ⟨v, hv, h⟩
+    cases v <;> simp at h
+    exact ⟨_, hv, h⟩
+  · rintro ⟨x, hx, h⟩
+    exact ⟨_, hx, by simp [h]⟩
+
+theorem lengthPart_nil (c : Column) (h : ¬ (c.ftype = .string ∧ c.nonNull ≠ [])) : lengthPart c = [] := by
+  unfold lengthPart
+  rw [if_neg]
+  simp only [Bool.and_eq_true, decide_eq_true_eq, beq_iff_eq, nonNullCount_pos]
+  intro hh; exact h ⟨hh.2, hh.1⟩
+
+theorem lengthPart_eq (c : Column) (hwf : c.WF = true) (hs : c.ftype = .string) (hne : c.nonNull ≠ []) :
+    ∃ m M, listMin (lensOf (calcUniques c)) = some m ∧ listMax (lensOf (calcUniques c)) = some M ∧
+      lengthPart c = [.minLength (some (m : Int)), .maxLength (some (M : Int))] := by
+  have hu := uniqs_string c hs hne
+  have hmem := (uniques_exact c hwf).1
+  cases hcu : calcUniques c with
+  | nil =>
+    exfalso
+    cases hnn : c.nonNull with
+    | nil => exact hne hnn
+    | cons v vs =>
+      have := (hmem v).mpr (by rw [hnn]; exact List.mem_cons_self)
+      rw [hcu] at this; cases this
+  | cons u us =>
+    have hus : ∃ x, u = Val.s x := by
+      have h1 : u ∈ c.nonNull := (hmem u).mp (by rw [hcu]; exact List.mem_cons_self)
+      have h2 := wf_allT hwf u h1
+      rw [hs] at h2
+      cases u <;> simp [Val.ftype] at h2
+      exact ⟨_, rfl⟩
+    obtain ⟨x, rfl⟩ := hus
+    have hls : lensOf (Val.s x :: us) ≠ [] := by simp [lensOf]
+    cases hm : listMin (lensOf (Val.s x :: us)) with
+    | none => exact absurd ((listMin_eq_none _).mp hm) hls
+    | some m =>
+      cases hM : listMax (lensOf (Val.s x :: us)) with
+      | none => exact absurd ((listMax_eq_none _).mp hM) hls
+      | some M =>
+        refine ⟨m, M, rfl, rfl, ?_⟩
+        have hnn := (nonNullCount_pos c).mpr hne
+        unfold lengthPart
+        rw [if_pos (by simp [hnn, hs])]
+        rw [hu, hcu]
+        simp only [hm, hM]
 
 theorem length_exact (incRex : Bool) (rexOf : List Val → List Nat) (c : Column) (hwf : c.WF = true)
     (ks : List Constraint) (hn : 0 < c.cells.length)
@@ -54,7 +251,74 @@ theorem length_exact (incRex : Bool) (rexOf : List Val → List Nat) (c : Column
         (∃ x, Val.s x ∈ c.nonNull ∧ x.length = m) ∧ ∀ x, Val.s x ∈ c.nonNull → x.length ≤ m) ∧
     ((∃ v, Constraint.minLength v ∈ ks) ↔ (c.ftype = .string ∧ c.nonNull ≠ [])) ∧
     ((∃ v, Constraint.maxLength v ∈ ks) ↔ (c.ftype = .string ∧ c.nonNull ≠ [])) := by
-  sorry
+  have := ks_eq (wf_other hwf) hn h
+  subst this
+  simp only [mem_minLength, mem_maxLength]
+  by_cases hc : c.ftype = .string ∧ c.nonNull ≠ []
+  · obtain ⟨m, M, hm, hM, hl⟩ := lengthPart_eq c hwf hc.1 hc.2
+    have hmem := (uniques_exact c hwf).1
+    have hm' := listMin_spec _ _ hm
+    have hM' := listMax_spec _ _ hM
+    simp only [mem_lensOf, hmem] at hm' hM'
+    rw [hl]
+    refine ⟨?_, ?_, ?_, ?_⟩
+    · intro v hv
+      simp at hv
+      refine ⟨m, hv, hm'.1, ?_⟩
+      intro x hx
+      exact hm'.2 _ ⟨x, hx, rfl⟩
+    · intro v hv
+      simp at hv
+      refine ⟨M, hv, hM'.1, ?_⟩
+      intro x hx
+      exact hM'.2 _ ⟨x, hx, rfl⟩
+    · simp [hc]
+    · simp [hc]
+  · rw [lengthPart_nil c hc]
+    simp [hc]
+
+theorem num_of_numeric (v : Val) (h : v.ftype = .bool ∨ v.ftype = .int ∨ v.ftype = .real) :
+    ∃ q, v.num = some q := by
+  cases v <;> simp [Val.ftype, Val.num] at h ⊢
+
+theorem le_num {a b : Val} {x q : Rat} (ha : a.num = some x) (hb : b.num = some q)
+    (h : a.le b = true) : x ≤ q := by
+  simp [Val.le, Val.lt, Val.eqv, ha, hb] at h; grind
+
+/-- the sign list computed from the minimum `x` and the maximum `y` -/
+def signOf (x y : Rat) : List Constraint :=
+  if x == 0 && y == 0 then [Constraint.sign (some .zero)]
+  else if x ≥ 0 then [Constraint.sign (some (if x > 0 then .positive else .nonNegative))]
+  else if y ≤ 0 then [Constraint.sign (some (if y < 0 then .negative else .nonPositive))]
+  else []
+
+theorem signOf_cases (x y : Rat) (hxy : x ≤ y) :
+    (x = 0 ∧ y = 0 ∧ signOf x y = [.sign (some .zero)]) ∨
+    (0 < x ∧ signOf x y = [.sign (some .positive)]) ∨
+    (x = 0 ∧ 0 < y ∧ signOf x y = [.sign (some .nonNegative)]) ∨
+    (y < 0 ∧ signOf x y = [.sign (some .negative)]) ∨
+    (x < 0 ∧ y = 0 ∧ signOf x y = [.sign (some .nonPositive)]) ∨
+    (x < 0 ∧ 0 < y ∧ signOf x y = []) := by
+  unfold signOf
+  by_cases h0 : x = 0 ∧ y = 0
+  · left; simp [h0]
+  · have h0' : (x == 0 && y == 0) = false := by
+      cases hh : (x == 0 && y == 0)
+      · rfl
+      · simp at hh; exact absurd hh h0
+    simp only [h0', Bool.false_eq_true, if_false]
+    by_cases h1 : x ≥ 0
+    · simp only [h1, if_true]
+      by_cases h2 : x > 0
+      · right; left; simp [h2]
+      · right; right; left; simp [h2]; grind
+    · simp only [h1, if_false]
+      by_cases h3 : y ≤ 0
+      · simp only [h3, if_true]
+        by_cases h4 : y < 0
+        · right; right; right; left; simp [h4]
+        · right; right; right; right; left; simp [h4]; grind
+      · right; right; right; right; right; simp [h3]; grind
 
 theorem sign_strongest (incRex : Bool) (rexOf : List Val → List Nat) (c : Column) (hwf : c.WF = true)
     (ks : List Constraint) (hn : 0 < c.cells.length) (hne : c.nonNull ≠ [])
@@ -65,13 +329,102 @@ theorem sign_strongest (incRex : Bool) (rexOf : List Val → List Nat) (c : Colu
         ∀ s', Stronger' s' s = true → ¬ ∀ v ∈ c.nonNull, ∃ q, v.num = some q ∧ SignHolds s' q) ∧
     ((¬ ∃ s, Constraint.sign s ∈ ks) →
         ∀ s, ¬ ∀ v ∈ c.nonNull, ∃ q, v.num = some q ∧ SignHolds s q) := by
-  sorry
+  have := ks_eq (wf_other hwf) hn h
+  subst this
+  simp only [mem_sign]
+  have ht := wf_allT hwf
+  cases ha : minOf c.nonNull with
+  | none => exact absurd ((minOf_eq_none _).mp ha) hne
+  | some a =>
+  cases hb : maxOf c.nonNull with
+  | none => exact absurd ((maxOf_eq_none _).mp hb) hne
+  | some b =>
+  obtain ⟨ha_mem, ha_le⟩ := minOf_spec _ a ht ha
+  obtain ⟨hb_mem, hb_ge⟩ := maxOf_spec _ b ht hb
+  have hnumT : ∀ v ∈ c.nonNull, ∃ q, v.num = some q :=
+    fun v hv => num_of_numeric v (by rw [ht v hv]; exact hnum)
+  obtain ⟨x, hx⟩ := hnumT a ha_mem
+  obtain ⟨y, hy⟩ := hnumT b hb_mem
+  have hAll : ∀ (p : Rat → Prop), (∀ q, x ≤ q → q ≤ y → p q) →
+      ∀ v ∈ c.nonNull, ∃ q, v.num = some q ∧ p q := by
+    intro p hp v hv
+    obtain ⟨q, hq⟩ := hnumT v hv
+    exact ⟨q, hq, hp q (le_num hx hq (ha_le v hv)) (le_num hq hy (hb_ge v hv))⟩
+  have hEx : ∀ (p : Rat → Prop), (∀ v ∈ c.nonNull, ∃ q, v.num = some q ∧ p q) → p x ∧ p y := by
+    intro p hp
+    obtain ⟨q, hq, hpq⟩ := hp a ha_mem
+    obtain ⟨q', hq', hpq'⟩ := hp b hb_mem
+    rw [hx] at hq; rw [hy] at hq'
+    cases hq; cases hq'
+    exact ⟨hpq, hpq'⟩
+  have hxy : x ≤ y := le_num hx hy (ha_le b hb_mem)
+  have hsp : signPart c = signOf x y := by
+    have hns : nonStr c = true := by
+      rw [nonStr_iff]; refine ⟨hne, ?_⟩
+      rcases hnum with h | h | h <;> simp [h]
+    have hd : (c.ftype != .date) = true := by
+      rcases hnum with h | h | h <;> simp [h]
+    unfold signPart calcMin calcMax signOf
+    simp only [hns, hd, Bool.and_self, if_true, ha, hb, hx, hy]
+  rw [hsp]
+  rcases signOf_cases x y hxy with ⟨h1, h2, he⟩ | ⟨h1, he⟩ | ⟨h1, h2, he⟩ | ⟨h1, he⟩ | ⟨h1, h2, he⟩ | ⟨h1, h2, he⟩ <;>
+    rw [he]
+  · refine ⟨?_, fun hno => absurd ⟨_, List.mem_singleton.mpr rfl⟩ hno⟩
+    intro s hs
+    simp at hs; subst hs
+    refine ⟨hAll _ (fun q _ _ => by simp only [SignHolds]; grind), ?_⟩
+    intro s' hs'; cases s' <;> simp [Stronger'] at hs'
+  · refine ⟨?_, fun hno => absurd ⟨_, List.mem_singleton.mpr rfl⟩ hno⟩
+    intro s hs
+    simp at hs; subst hs
+    refine ⟨hAll _ (fun q _ _ => by simp only [SignHolds]; grind), ?_⟩
+    intro s' hs'; cases s' <;> simp [Stronger'] at hs'
+  · refine ⟨?_, fun hno => absurd ⟨_, List.mem_singleton.mpr rfl⟩ hno⟩
+    intro s hs
+    simp at hs; subst hs
+    refine ⟨hAll _ (fun q _ _ => by simp only [SignHolds]; grind), ?_⟩
+    intro s' hs' hall
+    have := hEx _ hall
+    cases s' <;> simp [Stronger'] at hs' <;> simp only [SignHolds] at this <;> grind
+  · refine ⟨?_, fun hno => absurd ⟨_, List.mem_singleton.mpr rfl⟩ hno⟩
+    intro s hs
+    simp at hs; subst hs
+    refine ⟨hAll _ (fun q _ _ => by simp only [SignHolds]; grind), ?_⟩
+    intro s' hs'; cases s' <;> simp [Stronger'] at hs'
+  · refine ⟨?_, fun hno => absurd ⟨_, List.mem_singleton.mpr rfl⟩ hno⟩
+    intro s hs
+    simp at hs; subst hs
+    refine ⟨hAll _ (fun q _ _ => by simp only [SignHolds]; grind), ?_⟩
+    intro s' hs' hall
+    have := hEx _ hall
+    cases s' <;> simp [Stronger'] at hs' <;> simp only [SignHolds] at this <;> grind
+  · refine ⟨by simp, ?_⟩
+    intro _ s hall
+    have := hEx _ hall
+    cases s <;> simp only [SignHolds] at this <;> grind
+
+theorem length_filterMap_id_add (l : List (Option Val)) :
+    (l.filterMap id).length + (l.filter (·.isNone)).length = l.length := by
+  induction l with
+  | nil => rfl
+  | cons a as ih => cases a <;> simp <;> omega
+
+theorem calcNullCount_eq (c : Column) : calcNullCount c = nullCells c := by
+  unfold calcNullCount nullCells Column.nonNull
+  have := length_filterMap_id_add c.cells
+  omega
 
 theorem maxNulls_iff (incRex : Bool) (rexOf : List Val → List Nat) (c : Column) (hwf : c.WF = true)
     (ks : List Constraint) (hn : 0 < c.cells.length)
     (h : discoverField incRex rexOf c c.cells.length = .ok (some ks)) (v : Option Int) :
     Constraint.maxNulls v ∈ ks ↔ (v = some (nullCells c : Int) ∧ nullCells c < 2) := by
-  sorry
+  have := ks_eq (wf_other hwf) hn h
+  subst this
+  rw [mem_maxNulls, ← calcNullCount_eq]
+  unfold maxNullsPart
+  split
+  · rename_i h2; simp [h2]
+  · rename_i h2; simp [h2]
 
 theorem noDuplicates_iff (incRex : Bool) (rexOf : List Val → List Nat) (c : Column) (hwf : c.WF = true)
     (ks : List Constraint) (hn : 0 < c.cells.length)
@@ -79,7 +432,33 @@ theorem noDuplicates_iff (incRex : Bool) (rexOf : List Val → List Nat) (c : Co
     Constraint.noDuplicates v ∈ ks ↔
       (v = some true ∧ (c.ftype = .string ∨ c.ftype = .int) ∧ 1 < c.nonNull.length ∧
        c.nonNull.Pairwise (fun a b => a.eqv b = false)) := by
-  sorry
+  have := ks_eq (wf_other hwf) hn h
+  subst this
+  rw [mem_noDup, ← dedup_length_eq_iff]
+  unfold noDupPart
+  by_cases hsi : c.ftype = .string ∨ c.ftype = .int
+  · have hu : nUniq c = (calcNunique c : Int) := by
+      unfold nUniq; rcases hsi with h | h <;> simp [h]
+    have hr : c.ftype ≠ .real := by rcases hsi with h | h <;> simp [h]
+    rw [hu]
+    unfold calcNunique calcNonNullCount
+    by_cases hcond : (dedup c.nonNull).length = c.nonNull.length ∧ 1 < c.nonNull.length
+    · rw [if_pos]
+      · simp [hsi, hcond]
+      · simp [hcond, hr]; omega
+    · rw [if_neg]
+      · simp; intro _ _ h1 h2; exact hcond ⟨h2, h1⟩
+      · simp only [Bool.and_eq_true, beq_iff_eq, decide_eq_true_eq]
+        intro hh; apply hcond
+        omega
+  · have hu : nUniq c = -1 := by
+      unfold nUniq
+      rw [if_neg]
+      simpa using hsi
+    rw [hu, if_neg]
+    · simp; intro _ h1; exact absurd h1 hsi
+    · simp only [Bool.and_eq_true, beq_iff_eq, decide_eq_true_eq]
+      intro hh; omega
 
 theorem allowedValues_iff (incRex : Bool) (rexOf : List Val → List Nat) (c : Column) (hwf : c.WF = true)
     (ks : List Constraint) (hn : 0 < c.cells.length)
@@ -87,11 +466,30 @@ theorem allowedValues_iff (incRex : Bool) (rexOf : List Val → List Nat) (c : C
     Constraint.allowedValues v ∈ ks ↔
       (c.ftype = .string ∧ v = some (calcUniques c) ∧ 0 < (calcUniques c).length ∧
        (calcUniques c).length ≤ 20) := by
-  sorry
-
-theorem uniques_exact (c : Column) (hwf : c.WF = true) :
-    (∀ v, v ∈ calcUniques c ↔ v ∈ c.nonNull) ∧
-    (calcUniques c).Pairwise (fun a b => a.lt b = true) := by
-  sorry
+  have := ks_eq (wf_other hwf) hn h
+  subst this
+  rw [mem_allowed]
+  unfold allowedPart uniqs0
+  by_cases hs : c.ftype = .string
+  · have hu : nUniq c = (calcNunique c : Int) := by unfold nUniq; simp [hs]
+    rw [hu, ← calcUniques_length]
+    by_cases h20 : (calcUniques c).length ≤ 20
+    · rw [if_pos (by
+        rw [Bool.and_eq_true]
+        exact ⟨by simp [hs], decide_eq_true (by simp only [maxCategories]; omega)⟩)]
+      cases hcu : calcUniques c with
+      | nil => simp
+      | cons u us =>
+        rw [hcu] at h20
+        simp at h20
+        simp [hs]; intro _; omega
+    · rw [if_neg (by
+        rw [Bool.and_eq_true]
+        rintro ⟨_, hd⟩
+        have := of_decide_eq_true hd
+        simp only [maxCategories] at this; omega)]
+      simp; intro _ _ _; omega
+  · rw [if_neg (by simp [hs])]
+    simp [hs]
 
 end TddaVerif.Props.C07.Lemmas
